@@ -1397,6 +1397,8 @@ def _run(ctx):
         ctx.copy_src('Props/C14.v')
         compiled = ctx.compile(['Gen_serialfacts.v', 'C14.v'])
         ctx.extra['props_compiled'] = compiled
+    from .. import bivlifegen
+    bivlifegen.hook(ctx)     # Gen_bivlife.v + Props/C14_biv.v (C14_bridge_*): never stops the rest of the check
     E = Evaluator()
     pend = Pending(ctx, E)
     viol = Viols(ctx)
